@@ -172,6 +172,50 @@ def gen_tie():
     return res
 
 
+IMP_SOURCES = ["pyp0f/impersonate/tcp.py", "pyp0f/impersonate/utils.py", "pyp0f/net/layers/tcp/flags.py", "pyp0f/net/layers/tcp/options.py", "pyp0f/net/quirks.py",
+               "pyp0f/database/signatures/tcp.py", "pyp0f/database/parse/wildcard.py", "pyp0f/net/layers/ip.py"]
+IMP_THEOREMS = ["gen_impersonate_ip_eq", "gen_impersonate_options_eq", "gen_impersonate_window_eq", "gen_impersonate_payload_eq", "gen_impersonate_eq",
+                "parsed_wsize_ok"]
+
+
+def gen_tie_imp():
+    """Second translator: pyp0f/impersonate/tcp.py -> Gallina in the random-tape monad (translate/imp2coq.py), proved equal to the
+    hand-written impersonation model (coq/Gen/GenImpP.v).  Cached like gen_tie()."""
+    h = hashlib.sha1()
+    files = [REPO / f for f in IMP_SOURCES] + [VERIF / "translate" / "imp2coq.py", COQ / "Gen" / "GenImpP.v", COQ / "Model" / "Imperson.v", COQ / "Model" / "Sig.v",
+                                               COQ / "Model" / "Bits.v", COQ / "Model" / "SigParse.v", COQ / "Proofs" / "SigTextP.v"]
+    for f in files:
+        h.update(f.read_bytes() if f.exists() else b"<missing>")
+    key = h.hexdigest()
+    WORK.mkdir(exist_ok=True)
+    cache = WORK / "gen_tie_imp.json"
+    if cache.exists():
+        try:
+            c = json.load(open(cache))
+            if c.get("key") == key and (COQ / "Gen" / "GenImpP.vo").exists():
+                return c["result"]
+        except Exception:
+            pass
+    res = {"ok": False, "obligations": len(IMP_THEOREMS), "discharged": 0, "theorems": IMP_THEOREMS, "detail": ""}
+    rc, out = sh("%s %s %s %s" % (PY, VERIF / "translate" / "imp2coq.py", REPO, COQ / "Gen" / "GeneratedImp.v"), 120)
+    if rc != 0:
+        res["detail"] = "translator: " + out.strip()[-400:]
+    else:
+        for ext in (".vo", ".vok", ".vos", ".glob"):
+            for n in ("GeneratedImp", "GenImpP"):
+                q = COQ / "Gen" / (n + ext)
+                if q.exists():
+                    q.unlink()
+        rc, out = sh("timeout 600 coqc -Q . PV Gen/GeneratedImp.v && timeout 1200 coqc -Q . PV Gen/GenImpP.v", 1900, cwd=COQ)
+        if rc == 0 and out.count("Closed under the global context") == len(IMP_THEOREMS):
+            res["ok"] = True
+            res["discharged"] = len(IMP_THEOREMS)
+        else:
+            res["detail"] = "Gen/GenImpP.v no longer checks (the generated definition differs from the model): " + out.strip()[-600:]
+    json.dump({"key": key, "result": res}, open(cache, "w"))
+    return res
+
+
 # --------------------------------------------------------------------------- model side
 
 def run_model(lines):
@@ -283,15 +327,17 @@ def run_check(prop, tier, replay=None):
     else:
         proof = prove(prop)
         if getattr(mod, "GEN_TIE", False):
-            g = gen_tie()
+            imp = getattr(mod, "GEN_TIE") == "imp"
+            g = gen_tie_imp() if imp else gen_tie()
             proof["obligations"] += g["obligations"]
             proof["discharged"] += g["discharged"]
-            proof["theorems"] = proof.get("theorems", []) + ["Gen/GenP.v:" + t for t in g["theorems"]]
-            proof["checker_cmd"] = proof.get("checker_cmd", "") + " && translate/py2coq.py /repo coq/Gen/Generated.v && coqc Gen/Generated.v Gen/GenP.v"
+            proof["theorems"] = proof.get("theorems", []) + [("Gen/GenImpP.v:" if imp else "Gen/GenP.v:") + t for t in g["theorems"]]
+            proof["checker_cmd"] = proof.get("checker_cmd", "") + (" && translate/imp2coq.py /repo coq/Gen/GeneratedImp.v && coqc Gen/GeneratedImp.v Gen/GenImpP.v" if imp else
+                                                                   " && translate/py2coq.py /repo coq/Gen/Generated.v && coqc Gen/Generated.v Gen/GenP.v")
             proof["gen_tie"] = g
             if not g["ok"] and proof["ok"]:
                 proof["ok"] = False
-                proof["broken"] = "code-to-model equivalence (translator + Gen/GenP.v): " + g["detail"]
+                proof["broken"] = "code-to-model equivalence (translator + %s): " % ("Gen/GenImpP.v" if imp else "Gen/GenP.v") + g["detail"]
                 proof["log"] = g["detail"]
 
     coqchk = None
